@@ -792,8 +792,15 @@ def rule_cache_key(ctx, ix):
     for n in ast.walk(init.node):
         if isinstance(n, ast.Name) and isinstance(n.ctx, ast.Load) and n.id not in params and n.id not in stores and not hasattr(builtins, n.id):
             free.add(n.id)
+    # a module-level `logging.getLogger(...)` object only emits records: it carries nothing into the kernel
+    loggers = set()
+    for st in ix.module(init.module).body:
+        if isinstance(st, ast.Assign) and isinstance(st.value, ast.Call) and ast.unparse(st.value.func) in ("logging.getLogger", "getLogger"):
+            loggers.update(t.id for t in st.targets if isinstance(t, ast.Name))
     bad = []
     for name in sorted(free):
+        if name in loggers:
+            continue
         tgt = ix.resolve_name(init.module, name)
         if tgt is None and name not in ix.imports.get(init.module, {}):
             bad.append(name)
@@ -801,7 +808,7 @@ def rule_cache_key(ctx, ix):
             continue  # imported from an external library: a constant of the environment
         elif tgt is not None and tgt not in ix.funcs and tgt not in ix.classes:
             # module-level object of the package: must be immutable-looking (tensor_cdefs is the shared FFI)
-            if name not in ("tensor_cdefs",):
+            if name not in ("tensor_cdefs",) and name not in loggers:
                 bad.append(name)
     if bad:
         ctx.fail("C15.cache-key", "compile/_tensor_method.py:TensorMethod.__init__:free variables", f"reads {bad}, which are not part of the cache key")
